@@ -95,3 +95,80 @@ c06_exp1_tail!(c06_exp1_tail, 0);
 //@ funcs: Exp1::sample::<f64> zero_case closure
 //@ bounds: base layer, tail uniform exactly 0.0 (second word >> 11 == 0)
 c06_exp1_tail!(c03_exp1_tail_kf_u0, 1);
+
+// ------------------------------------------------------------------------------------------
+// Exp
+// ------------------------------------------------------------------------------------------
+macro_rules! c04_exp {
+    ($name:ident, $f:ty) => {
+        vproof! {
+            fn $name() {
+                let lambda: $f = kani::any();
+                let r = Exp::<$f>::new(lambda);
+                // LambdaTooSmall: `lambda < 0` or is `-0.0` or is nan
+                let conds = [lambda < 0.0 || (lambda == 0.0 && lambda.is_sign_negative()) || lambda != lambda];
+                let res = match &r { Ok(_) => None, Err(Error::LambdaTooSmall) => Some(0) };
+                c04_judge(res, conds);
+                if let Ok(d) = r {
+                    // C07 state: lambda_inverse is the documented 1/lambda (class check; value in C07)
+                    vassert!(d.lambda_inverse >= 0.0, "Exp lambda_inverse negative or NaN");
+                    vassert!(lambda != 0.0 || d.lambda_inverse == <$f>::INFINITY, "Exp: lambda = 0 must give 1/lambda = inf");
+                    vassert!(!(lambda >= 1e-30 && lambda <= 1e30) || (d.lambda_inverse > 0.0 && d.lambda_inverse < <$f>::INFINITY), "Exp: lambda_inverse not positive finite for an ordinary rate");
+                }
+                kani::cover!(res.is_none(), "Ok reachable");
+                kani::cover!(res == Some(0), "LambdaTooSmall reachable");
+            }
+        }
+    };
+}
+//@ id: c04_exp_f64
+//@ prop: C04
+//@ tier: quick
+//@ cap: 300
+//@ funcs: Exp::<f64>::new
+//@ bounds: every f64 bit pattern
+c04_exp!(c04_exp_f64, f64);
+//@ id: c04_exp_f32
+//@ prop: C04
+//@ tier: quick
+//@ cap: 300
+//@ funcs: Exp::<f32>::new
+//@ bounds: every f32 bit pattern
+c04_exp!(c04_exp_f32, f32);
+
+macro_rules! c03_exp {
+    ($name:ident, $f:ty, $minl:expr, $maxl:expr) => {
+        vproof_zstub! {
+            fn $name() {
+                let mut rng = SymRng::new(1);
+                let lambda: $f = kani::any();
+                if let Ok(d) = Exp::<$f>::new(lambda) {
+                    kani::assume(lambda == 0.0 || (lambda >= $minl && lambda <= $maxl));
+                    let x: $f = d.sample(&mut rng);
+                    vassert!(x == x, "Exp sample is NaN");
+                    vassert!(x >= 0.0, "Exp sample is negative");
+                    // the documentation names exactly one infinite result: rate 0
+                    vassert!((lambda == 0.0) == x.is_infinite(), "Exp sample infinite for a positive rate (or finite for rate 0)");
+                    kani::cover!(lambda == 0.0, "rate 0");
+                    kani::cover!(lambda > 0.0, "positive rate");
+                }
+            }
+        }
+    };
+}
+//@ id: c03_exp_f64
+//@ prop: C03
+//@ tier: quick
+//@ cap: 300
+//@ funcs: Exp::<f64>::new; Exp::<f64>::sample
+//@ bounds: lambda = 0 or 1e-100 <= lambda <= 1e100
+//@ assumes: utils::ziggurat by contract (0 < x <= 44.5; established by c06_exp1_*, outside known finding exp1_tail_u0)
+c03_exp!(c03_exp_f64, f64, 1e-100, 1e100);
+//@ id: c03_exp_f32
+//@ prop: C03
+//@ tier: quick
+//@ cap: 300
+//@ funcs: Exp::<f32>::new; Exp::<f32>::sample; Exp1::sample::<f32>
+//@ bounds: lambda = 0 or 1e-30 <= lambda <= 1e30
+//@ assumes: utils::ziggurat by contract
+c03_exp!(c03_exp_f32, f32, 1e-30, 1e30);
